@@ -326,7 +326,13 @@ def _module(draw, ctx):
             items.insert(pos, cm)
         if draw(st.booleans()):
             pos = draw(st.integers(0, len(ports)))
-            ports.insert(pos, {"k": "comment", "text": " port comment ", "style": draw(st.sampled_from(["line", "block"]))})
+            ports.insert(pos, {"k": "comment", "text": draw(st.sampled_from([" port comment ", " clock (rising edge) ", " outputs (2) ", " ) ", " a) b( "])),
+                               "style": draw(st.sampled_from(["line", "block"]))})
+    if tool and draw(st.booleans()):
+        # block comments before and after the statements (a reader that strips comments greedily
+        # would lose everything in between)
+        items.insert(draw(st.integers(0, 2)), {"k": "comment", "text": " first block ", "style": "block"})
+        items.append({"k": "comment", "text": " last block ", "style": "block"})
     name = draw(st.sampled_from(["top", "c17", "my_mod", "M"]))
     return {"name": name, "ports": ports, "items": items, "bbtypes": bbtypes}
 
